@@ -43,15 +43,24 @@ def job(seed):
     # more properties than the generic generator gives
     for t in spec['tables']:
         if rng.random() < 0.5:
-            t['props'] = [[k, rng.choice(['v', 'two words', "it's", 'x:y', 'a,b', '[b]'])] for k in rng.sample(['owner', 'team', 'k', 'label', 'zz'], rng.randint(1, 3))]
+            t['props'] = [[k, rng.choice(['v', 'two words', "it's", 'x:y', 'a,b', '[b]', 'line1\n  line2', '\n    indented\n    block\n', '  lead'])]
+                          for k in rng.sample(['owner', 'team', 'k', 'label', 'zz'], rng.randint(1, 3))]
         for c in t['columns']:
             if rng.random() < 0.35:
-                c['props'] = [[k, rng.choice(['v', 'two words', "it's", 'x]y', 'a,b'])] for k in rng.sample(['label', 'k', 'zz', 'fmt', 'owner'], rng.randint(1, 2))]
+                c['props'] = [[k, rng.choice(['v', 'two words', "it's", 'x]y', 'a,b', 'l1\n  l2', '  lead'])] for k in rng.sample(['label', 'k', 'zz', 'fmt', 'owner'], rng.randint(1, 2))]
     if rng.random() < 0.3:
         spec = strip_props(spec)
     from harness.props.c02 import make_expressible
     from harness import expressible as EX
     spec = make_expressible(spec)
+    # values DBML can declare but not render back (multi-line, leading blanks): stored exactly all the same ("keys and
+    # values exact"); the round-trip clause is skipped for them (C13 findings)
+    if rng.random() < 0.35:
+        for t in spec['tables']:
+            for holder in [t] + t['columns']:
+                if holder['props'] and rng.random() < 0.6:
+                    holder['props'][rng.randrange(len(holder['props']))][1] = rng.choice(
+                        ['line1\n  line2', '\n    indented\n    block\n', '  lead', 'a\n\nb', '    x\n    y'])
     if not SP.spellable(spec):
         return None
     out = {'fails': [], 'hasprops': has_props(spec), 'texts': [], 'expressible': not EX.reasons(spec)}
